@@ -365,7 +365,7 @@ func CheckC06(c *Ctx) {
 	c.Extra["cells_hit"] = cells - missing
 	compactCells(c)
 	c.SetReport(Report{
-		Rule: "accepted strings of the C01 stream (70% well-formed spellings incl. explicit X/ND and shuffled v3 order, 30% hostile mutants that happen to stay well-formed); for each, Get of EVERY metric is compared with the value the naive recogniser reads from the string; evaluations = Get calls + parser calls; distinct = distinct input strings; non-trivial = all (each accepted string checks 14-32 Gets)",
+		Rule:        "accepted strings of the C01 stream (70% well-formed spellings incl. explicit X/ND and shuffled v3 order, 30% hostile mutants that happen to stay well-formed); for each, Get of EVERY metric is compared with the value the naive recogniser reads from the string; evaluations = Get calls + parser calls; distinct = distinct input strings; non-trivial = all (each accepted string checks 14-32 Gets)",
 		Assumptions: []string{"the recogniser's reading of an accepted string is the meaning the specification gives it"},
 	})
 	c.Finish()
@@ -477,7 +477,7 @@ func CheckC08(c *Ctx) {
 	c.Floor("v2 all-ND group written", c.Counts["feature:v2-all-ND-group-written"], 10)
 	c.Floor("v2 partially-ND group", c.Counts["feature:v2-partially-ND-group"], 10)
 	c.SetReport(Report{
-		Rule: "accepted strings of the C01 stream with non-canonical spellings over-represented (explicit X / ND, shuffled v3 order, all-ND and partially-ND v2 groups); ParseVector(s).Vector() must equal the canonicaliser's output for the assignment the recogniser reads from s, and parse-then-serialise must be idempotent; distinct = distinct input strings; non-trivial = accepted strings",
+		Rule:        "accepted strings of the C01 stream with non-canonical spellings over-represented (explicit X / ND, shuffled v3 order, all-ND and partially-ND v2 groups); ParseVector(s).Vector() must equal the canonicaliser's output for the assignment the recogniser reads from s, and parse-then-serialise must be idempotent; distinct = distinct input strings; non-trivial = accepted strings",
 		Assumptions: []string{"canonical form as defined in C08's statement, implemented in harness/spec/grammar.go Canonical()"},
 	})
 	c.Finish()
@@ -540,7 +540,7 @@ func CheckC13(c *Ctx) {
 	c.Floor("header variant strings", c.Counts["header-variant-strings"], 1000)
 	c.Extra["header_variants"] = gen.Headers
 	c.SetReport(Report{
-		Rule: "the whole C01 string stream (incl. " + fmt.Sprint(len(gen.Headers)) + " header variants x bodies of every version and bodies of one version under another's header) is offered to all four parsers; at most one may accept; every Vector() output of an accepted object is offered to all four; distinct = distinct strings; non-trivial = all",
+		Rule:        "the whole C01 string stream (incl. " + fmt.Sprint(len(gen.Headers)) + " header variants x bodies of every version and bodies of one version under another's header) is offered to all four parsers; at most one may accept; every Vector() output of an accepted object is offered to all four; distinct = distinct strings; non-trivial = all",
 		Assumptions: []string{"none beyond the Go runtime"},
 	})
 	c.Finish()
